@@ -60,7 +60,7 @@ CHECKS["C08"] = {
     "runs": [{
         "harness": "c08_find", "sources": ["engines/msgmc/c08_find.cpp"], "deps": ["engines/msgmc/c08_universe.h"],
         "variant": "plain", "libset": "core",
-        "quick": {"parts": 16, "deadline": 55,
+        "quick": {"parts": 16, "deadline": 240,
                   "bounds": "40 unconditional definitions: all ordered subsets of size<=2 x all telegrams, size 3 x member-derived telegrams; 7 conditional + 12 partner definitions: ordered subsets of size<=3 containing a conditional one x 5 environments; 6 multi-part chained + 12 partner definitions: ordered subsets of size<=3 containing a multi-part chain; edit pass: subsets of size<=2 of 13 definitions x (remove | replacing add) ; identification pass: 65 states; 16 flag combinations"},
         "thorough": {"parts": 16, "deadline": 840,
                      "bounds": "40 definitions; all ordered subsets of size<=3 x all telegrams; size 4 over the 28-definition core x member-derived telegrams; 7 conditional + 12 partner definitions: ordered subsets of size<=4 containing a conditional one x 5 environments; 6 multi-part chained + 12 partner definitions: ordered subsets of size<=4 containing a multi-part chain; edit pass: subsets of size<=3 of 13 definitions x (remove | replacing add); identification pass: 65 states; 16 flag combinations"},
@@ -108,7 +108,7 @@ CHECKS["C09"] = {
     "runs": [{
         "harness": "c09_build", "sources": ["engines/msgmc/c09_build.cpp"], "deps": ["engines/msgmc/c09_grammar.h"],
         "variant": "plain", "libset": "core",
-        "quick": {"parts": 16, "deadline": 55,
+        "quick": {"parts": 16, "deadline": 240,
                   "bounds": "plain shapes: all layouts <=2 fields (9 kinds x 3 parts) + 3 fields over 4 kinds x {m,s} + over-long HEX:12 triples; chained shapes: layouts <=2 fields; all value choices, all arrival orders x gap patterns"},
         "thorough": {"parts": 16, "deadline": 840,
                      "bounds": "plain shapes: all layouts <=3 fields (10 kinds x 3 parts), 3 destinations; chained shapes: layouts <=3 fields; all value choices, all arrival orders x gap patterns"},
@@ -157,7 +157,7 @@ CHECKS["C19"] = {
     "runs": [{
         "harness": "c19_roundtrip", "sources": ["engines/msgmc/c19_roundtrip.cpp"],
         "variant": "plain", "libset": "core",
-        "quick": {"parts": 16, "deadline": 55,
+        "quick": {"parts": 16, "deadline": 240,
                   "bounds": "(a) 3.8e6 field lists; (a2) texts <=5; (b) 216 message shapes x 2971 field lists + 4 x 31^3 text triples (alphabet with the double quote) + 2 shapes x 1190 divisor/template field sequences (length<=2) in forked children"},
         "thorough": {"parts": 16, "deadline": 840,
                      "bounds": "(a) + 1-2 fields of length<=4; (a2) texts <=6; (b) 396 message shapes x 2971 field lists + 6 shapes x 54^3 three-field lists + 3 x 181^3 + 3 x 31^3 text triples (alphabet with the double quote) + 2 shapes x 40494 divisor/template field sequences (length<=3) in forked children"},
